@@ -346,9 +346,57 @@ func (fr *frame) resultTypes(c *ssa.CallCommon) []types.Type {
 	return out
 }
 
+// holdsReference: a value of this type can carry a pointer, interface, function, map, channel or slice.
+func holdsReference(t types.Type, depth int) bool {
+	if depth > 6 {
+		return true
+	}
+	switch u := unalias(t).Underlying().(type) {
+	case *types.Basic:
+		return u.Kind() == types.UnsafePointer
+	case *types.Struct:
+		for i := 0; i < u.NumFields(); i++ {
+			if holdsReference(u.Field(i).Type(), depth+1) {
+				return true
+			}
+		}
+		return false
+	case *types.Array:
+		return holdsReference(u.Elem(), depth+1)
+	}
+	return true
+}
+
 func (fr *frame) havocCall(c *ssa.CallCommon, instr ssa.Value, st *state, why string) []T {
 	fr.abstract(why)
+	// a callee that receives only plain values (numbers, structs of numbers) cannot reach any reader or writer:
+	// the ghost stream state survives the call
+	keep := map[string]string{}
+	plain := !c.IsInvoke()
+	if plain {
+		if _, isFn := c.Value.(*ssa.Function); !isFn {
+			plain = false
+		}
+	}
+	if plain {
+		for _, a := range c.Args {
+			if holdsReference(a.Type(), 0) {
+				plain = false
+				break
+			}
+		}
+	}
+	if plain {
+		for _, g := range []string{"G_written", "G_consumed", "G_wbytes", "G_lines", "G_scanErr", "G_lastScanOK", "G_lastSlice", "G_lastInt"} {
+			if _, reg := fr.vc.heapNames[g]; reg {
+				keep[g] = fr.vc.heapGetQuiet(st, g)
+			}
+		}
+	}
 	fr.vc.havocAll(st)
+	for g, v := range keep {
+		st.heap[g] = v
+	}
 	var res []T
 	for i, t := range fr.resultTypes(c) {
 		res = append(res, fr.freshOf(fmt.Sprintf("hv%d", i), t, st))
